@@ -1874,6 +1874,12 @@ class PrepareAst:
             return self.apply(inp.value)
 
         if isinstance(inp, ast.Match):
+            # match statements are lowered to case/if statements,
+            # VHDL only allows those in processes
+            assert (
+                self._context is ContextType.SEQUENTIAL
+            ), "match statements are only allowed in sequential contexts"
+
             subject = cast(out.Expression, self.apply(inp.subject))
 
             cases: list[typing.Tuple[out.Expression, out.CodeBlock]] = []
